@@ -197,17 +197,23 @@ def opUndoMachine (req : Json) : Json :=
 the cursor (grapheme index) after every command of the chain. -/
 def opSearch (req : Json) : Json :=
   let gs := gsOf req
-  let starts : List Nat := (jarr req "starts").toList.map (fun j => j.getNat?.toOption.getD 0)
-  let cmds : List SearchCmd := (jarr req "cmds").toList.filterMap fun c =>
+  let natList (j : Json) : List Nat := match j with
+    | .arr a => a.toList.map (fun x => x.getNat?.toOption.getD 0)
+    | _ => []
+  -- a search command may carry the match starts of *its* pattern (which n/N then keep using)
+  let cmds : List (SearchCmd × Option (List Nat)) := (jarr req "cmds").toList.filterMap fun c =>
     match c with
-    | .arr #[.str "search", .bool f, n] => some (.search f (n.getNat?.toOption.getD 1))
-    | .arr #[.str "next", n] => some (.next (n.getNat?.toOption.getD 1))
-    | .arr #[.str "prev", n] => some (.prev (n.getNat?.toOption.getD 1))
+    | .arr #[.str "search", .bool f, n] => some (.search f (n.getNat?.toOption.getD 1), none)
+    | .arr #[.str "search", .bool f, n, st] => some (.search f (n.getNat?.toOption.getD 1), some (natList st))
+    | .arr #[.str "next", n] => some (.next (n.getNat?.toOption.getD 1), none)
+    | .arr #[.str "prev", n] => some (.prev (n.getNat?.toOption.getD 1), none)
     | _ => none
-  let (_, _, out) := cmds.foldl (fun (acc : Nat × SearchState × List Json) c =>
-    let (cur, st, out) := acc
-    let (cur', st') := searchStep gs starts cur st c
-    (cur', st', out ++ [Json.num cur'])) (jnat req "cursor", {}, [])
+  let starts0 := natList ((req.getObjVal? "starts").toOption.getD (Json.arr #[]))
+  let (_, _, _, out) := cmds.foldl (fun (acc : Nat × SearchState × List Nat × List Json) c =>
+    let (cur, st, starts, out) := acc
+    let starts' := c.2.getD starts
+    let (cur', st') := searchStep gs starts' cur st c.1
+    (cur', st', starts', out ++ [Json.num cur'])) (jnat req "cursor", {}, starts0, [])
   Json.mkObj [("cursors", Json.arr out.toArray)]
 
 def dispatch (req : Json) : Json :=
